@@ -1,6 +1,7 @@
 import Proofs.InvProps
 import Proofs.Hitzer5
 import Proofs.Blade
+import Proofs.LaInv
 
 /-! # C05 — inverses, division and integer powers are true two-sided algebra inverses / powers
 
@@ -90,5 +91,31 @@ theorem neg_pow (M X : Cl n sig) (h : X * M = 1) (k : Nat) : X ^ k * M ^ k = 1 :
 
 /-- non-vacuity: in Cl(1) with `e₀² = 1`, `e₀` is its own inverse, and `1 + e₀` is singular -/
 example : ∃ e : Cl 1 (fun _ => (1 : ℤ)), e * e = 1 := ⟨Cl.e 0 (by decide), by rw [Cl.e_sq]; exact one_smul _ _⟩
+
+/-- **`leftLaInv` / `Layout.inv_func`** (the method `inv()` falls back to beyond 5 dimensions): the code builds
+    `intermed = get_left_gmt_matrix(M)` from the executable table (`constructGmt`, any storage order `σ`) and solves
+    `intermed @ x = e_scalar` (`identity[bitmap_to_index[0]] = 1`). *Any* solution of that system is the two-sided inverse of `M`
+    (`np.linalg.solve` / `cond` are parameters: floating-point LAPACK) … -/
+theorem leftLaInv_solution_is_inverse (n : Nat) (sig : Nat → Int) (σ : Equiv.Perm (Bm n)) (i2b b2i : Nat → Nat)
+    (h1 : ∀ i : Bm n, i2b i.val = (σ i).val) (h2 : ∀ c : Bm n, b2i c.val = (σ.symm c).val)
+    (M x : Array R)
+    (hsol : ∀ j, j < 2 ^ n → (Model.mulVec (Model.leftMat (2 ^ n) (Model.constructGmt sig i2b b2i (2 ^ n)) M) x).getD j 0 = if j = b2i 0 then 1 else 0) :
+    LaInv.ofArr n sig b2i M * LaInv.ofArr n sig b2i x = 1 ∧ LaInv.ofArr n sig b2i x * LaInv.ofArr n sig b2i M = 1 :=
+  LaInv.solve_two_sided n sig σ i2b b2i h1 h2 M x hsol
+
+/-- … and conversely the inverse solves it: the system is solvable exactly when `M` is invertible (a singular `M` gives a singular
+    matrix, which is what the conditioning test refuses) -/
+theorem leftLaInv_inverse_solves_system (n : Nat) (sig : Nat → Int) (σ : Equiv.Perm (Bm n)) (i2b b2i : Nat → Nat)
+    (h1 : ∀ i : Bm n, i2b i.val = (σ i).val) (h2 : ∀ c : Bm n, b2i c.val = (σ.symm c).val)
+    (M x : Array R) (hinv : LaInv.ofArr n sig b2i M * LaInv.ofArr n sig b2i x = 1) :
+    ∀ j, j < 2 ^ n → (Model.mulVec (Model.leftMat (2 ^ n) (Model.constructGmt sig i2b b2i (2 ^ n)) M) x).getD j 0 = if j = b2i 0 then 1 else 0 :=
+  LaInv.inverse_solves n sig σ i2b b2i h1 h2 M x hinv
+
+/-- non-vacuity: in Cl(1) with `e1² = 1`, default order, `M = 2` (stored `#[2, 0]`) and `x = #[1/2, 0]` over ℚ solve the system -/
+example : ∀ j, j < 2 ^ 1 → (Model.mulVec (Model.leftMat (2 ^ 1) (Model.constructGmt (fun _ => 1) id id (2 ^ 1)) (#[2, 0] : Array ℚ)) #[1/2, 0]).getD j 0
+    = if j = (id 0 : Nat) then 1 else 0 := by
+  intro j hj
+  have : j = 0 ∨ j = 1 := by omega
+  rcases this with rfl | rfl <;> decide +kernel
 
 end C05
